@@ -89,12 +89,20 @@ def run():
                 if fmt is None and (look != "plain" or cond != "normal"):
                     continue      # the default-format point once per mode
                 to = fa2 if equal else fb
-                argv = [fa, to, "--no-status"] + margs + largs + cargs + (["--format", fmt] if fmt else [])
-                cfg = _cli.base_cfg(fromExt=typ, toExt=typ, fromValid=[typ], toValid=[typ], sameData=equal, decided=False)
-                jobs.append({"argv": argv, "from": fa, "to": to, "cfg": cfg,
-                             "contents": (ds[typ][0].decode("latin-1"), (ds[typ][0] if equal else ds[typ][1]).decode("latin-1")),
-                             "meta": {"set": si, "input": typ, "format": fmt or "default", "mode": mode, "look": look,
-                                      "condensed": cond == "condensed", "equal": equal}})
+                # matching options change the node classes the formatters meet (FixedKeyDictNode, fixed-length list edits):
+                # every point also under -k / -l for the first two document sets, -k -l for the others' digest mode
+                optsets = [[]]
+                if si < 2 and not equal:
+                    optsets += [["-k"], ["-l"]]
+                elif mode == "digest" and not equal:
+                    optsets += [["-k", "-l"]]
+                for oargs in optsets:
+                    argv = [fa, to, "--no-status"] + margs + largs + cargs + oargs + (["--format", fmt] if fmt else [])
+                    cfg = _cli.base_cfg(fromExt=typ, toExt=typ, fromValid=[typ], toValid=[typ], sameData=equal, decided=False)
+                    jobs.append({"argv": argv, "from": fa, "to": to, "cfg": cfg,
+                                 "contents": (ds[typ][0].decode("latin-1"), (ds[typ][0] if equal else ds[typ][1]).decode("latin-1")),
+                                 "meta": {"set": si, "input": typ, "format": fmt or "default", "mode": mode, "look": look,
+                                          "condensed": cond == "condensed", "equal": equal, "options": " ".join(oargs)}})
     records = _cli.execute(jobs)
     errs, st = _cli.validate(records)
     chk.add_trace_stats(st, "CliTrace", len(records))
@@ -107,9 +115,10 @@ def run():
                    "exc": rec["exc"].split(":")[0] if rec["exc"] else "", "where": rec.get("where", ""),
                    "detail": (re.findall(r"unsupported type: <class '([A-Za-z_.]+)'>", rec["exc"]) or [""])[0]}
             chk.violation(sig, {"meta": m, "argv_tail": job["argv"][2:], "first": job["contents"][0], "second": job["contents"][1]},
-                          "input %s rendered as %s (%s, %s%s, %s documents): %s; rc=%s exc=%s" % (
+                          "input %s rendered as %s (%s, %s%s, %s documents%s): %s; rc=%s exc=%s" % (
                               m["input"], m["format"], m["mode"], m["look"], ", condensed" if m["condensed"] else "",
-                              "equal" if m["equal"] else "different", v["clause"], rec["rc"], rec["exc"][:160]))
+                              "equal" if m["equal"] else "different", (", " + m["options"]) if m.get("options") else "",
+                              v["clause"], rec["rc"], rec["exc"][:160]))
     chk.exhaustive = True
     for i in (0, len(jobs) // 2, len(jobs) - 1):
         chk.sample({"meta": jobs[i]["meta"], "rc": records[i]["rc"], "exc": records[i]["exc"]})
